@@ -586,6 +586,14 @@ package yang
 //@   loop 1
 //@     invariant forall j int :: 0 <= j && j < _k ==> mod.Import[j].Prefix.Name != prefix
 //
+// The keyword of an extension is prefix:name with text on both sides of exactly
+// one colon; anything else that is not a keyword of the statement is refused
+// by build (C03: a keyword that is unknown in its context is always rejected).
+//@ func isPrefixedKeyword props C03 C01
+//@   ensures result ==> splitPart(kw, ":", 0) != "" && splitPart(kw, ":", 1) != ""
+//@   modifies nothing
+//@   safe
+//
 // Process is outside the subset (reflection through ToEntry). Assumed: it
 // never removes or replaces a module that is loaded (it only adds modules that
 // imports and includes name).
